@@ -760,7 +760,9 @@ def run_reduce(case):
             o['reduce_error'] = repr(e)[:200]
         for method in ('hdf5:default', 'pickle'):
             try:
-                loaded = roundtrip(obj, method)
+                # a global is stored as an HDF5 dataset (like int/str/functions), which cannot be the root object of a file:
+                # save it inside a list
+                loaded = roundtrip([obj], method)[0] if name == 'reduce_returns_str' else roundtrip(obj, method)
                 same = (loaded is obj) if name == 'reduce_returns_str' else (type(loaded) is type(obj)) and (
                     (list(loaded) == list(obj) if isinstance(obj, (list, collections.deque)) else True) and
                     (dict(loaded) == dict(obj) if isinstance(obj, dict) else True) and
